@@ -105,6 +105,13 @@ def gen_value(rng, depth, allow_opaque=True):
         for _ in range(n):
             kk = rng.choice(['a', 'b', 'k1', 1, 2, (1, 2), 2.5, None]) if rng.random() < 0.5 else rng.choice(['a', 'b', 'c'])
             d[kk] = gen_value(rng, depth - 1)
+        r2 = rng.random()
+        if r2 < 0.12:
+            import collections
+            return collections.OrderedDict(d)
+        if r2 < 0.24:
+            import collections
+            return collections.defaultdict(int, d)       # a dict subclass whose constructor takes a factory first
         return d
     if allow_opaque:
         if rng.random() < 0.5:
@@ -241,6 +248,10 @@ def same(a, b):
     """structural identity: same types, floats bit-identical, containers elementwise"""
     if isinstance(b, tuple) and len(b) == 2 and b[0] == 'OPAQUE':
         return (isinstance(a, (range, Point))) and len(tuple(a)) == len(b[1]) and all(same(x, y) for x, y in zip(tuple(a), b[1]))
+    if isinstance(a, dict) and isinstance(b, dict) and type(a) is not type(b):
+        # a dict subclass (OrderedDict, defaultdict): the model has one kind of dict; when nothing is rounded the
+        # function gets the caller's own object, when something is, a plain dict - compared by contents
+        a, b = dict(a), dict(b)
     if type(a) is not type(b):
         return False
     if isinstance(a, float):
@@ -441,7 +452,11 @@ class Skip(Exception):
 
 
 def _has_set(x):
+    """contains something whose str() is not a function of its value alone: a set (iteration order) or a
+    dict subclass (OrderedDict(...) / defaultdict(...) spell their class)"""
     if isinstance(x, (set, frozenset)):
+        return True
+    if isinstance(x, dict) and type(x) is not dict:
         return True
     if isinstance(x, dict):
         return any(_has_set(k) or _has_set(v) for k, v in x.items())
